@@ -137,11 +137,21 @@ pub fn program(data: &[u8]) -> (Program, Vec<&'static str>) {
         pool.push(i);
     }
     let dense = rd.chance(1, 6); // many distinct numeric keys: forces table growth
+    // every pool key is also bound to a variable once, so that the very same object can be offered
+    // again (an unhashable tuple rejected twice, a key looked up through itself)
+    for (slot, i) in pool.iter().enumerate() {
+        main.push(Stmt::var(&format!("key{}", slot), Some(key_expr(*i))));
+    }
     let mut pick_key = |rd: &mut Rd| -> Expr {
         if dense && rd.chance(2, 3) {
             n(rd.below(48) as f64)
         } else {
-            key_expr(pool[rd.below(pool.len())])
+            let slot = rd.below(pool.len());
+            if rd.chance(1, 3) {
+                Expr::var(&format!("key{}", slot))
+            } else {
+                key_expr(pool[slot])
+            }
         }
     };
     // maps: literal construction (a literal evaluates all keys and values first, then inserts)
